@@ -612,6 +612,9 @@ pub fn build_raw(lang: &Lang, events: &[Ev], crlf: bool) -> Built {
                     String::new()
                 } else if in_container {
                     ["", "> ", "- ", "1. ", "> - "][c.container as usize].to_string()
+                } else if !md_form && !c.lead && c.indent == 8 && lang.star {
+                    // tab indentation (languages with `*`-decorated block comments: C family, Java, JS/TS, Rust, Go, …)
+                    "\t".to_string()
                 } else {
                     " ".repeat(if md_form { c.indent % 4 } else if c.lead { 0 } else { c.indent })
                 };
